@@ -98,14 +98,14 @@ type Ctx struct {
 	idx     int64
 
 	evals, ops, nontrivial, distinctByConstruction int64
-	hashes                                       map[uint64]struct{}
-	samples                                      []string
-	outcomes                                     map[string]int64
-	perKey                                       map[string]int64
-	extra                                        map[string]int64
-	deadline                                     time.Time
-	deadlineHit                                  bool
-	completed                                    int64
+	hashes                                         map[uint64]struct{}
+	samples                                        []string
+	outcomes                                       map[string]int64
+	perKey                                         map[string]int64
+	extra                                          map[string]int64
+	deadline                                       time.Time
+	deadlineHit                                    bool
+	completed                                      int64
 
 	mu  sync.Mutex
 	out *bufio.Writer
